@@ -36,13 +36,14 @@ type ACPlan struct {
 	TmpID  uint64 `json:"tmp_id,omitempty"`
 	// leftover temp files are planted both where the shipped code puts them
 	// (root) and beside the destination, so the check does not depend on which
-	DataID   uint64          `json:"data_id"`
-	DataLen  int             `json:"data_len"`
-	Data2Len int             `json:"data2_len"`
-	Ordered  bool            `json:"ordered,omitempty"`
-	MaxWrite int             `json:"max_write,omitempty"`
-	Faults   []simunix.Fault `json:"faults,omitempty"`
-	Choices  []int           `json:"crash_choices,omitempty"`
+	DataID    uint64          `json:"data_id"`
+	DataLen   int             `json:"data_len"`
+	Data2Len  int             `json:"data2_len"`
+	ZeroBlock bool            `json:"zero_block,omitempty"` // the data contains an aligned block of zeros
+	Ordered   bool            `json:"ordered,omitempty"`
+	MaxWrite  int             `json:"max_write,omitempty"`
+	Faults    []simunix.Fault `json:"faults,omitempty"`
+	Choices   []int           `json:"crash_choices,omitempty"`
 	// conc
 	Creators []Creator `json:"creators,omitempty"`
 	Reads    int       `json:"reads,omitempty"`
@@ -64,6 +65,7 @@ func (c13) Gen(rng *simrt.Rand, tier string, run int) interface{} {
 	p := ACPlan{System: "dir", Dir: "d0", Name: rng.PickStr("x", "y.tmp", "z"), OldLen: -1, TmpLen: -1}
 	p.DataID, p.DataLen = 0xD1, acSizes[rng.Intn(len(acSizes))]
 	p.Data2Len = acSizes[rng.Intn(4)]
+	p.ZeroBlock = p.DataLen >= 4096 && rng.Chance(1, 3)
 	prior := func() {
 		if rng.Chance(2, 3) {
 			p.OldID, p.OldLen = 0x01D, rng.Pick(0, 5, 100, 5000)
@@ -385,6 +387,16 @@ func execAC(p *ACPlan, keepLog bool) acResult {
 	s := simrt.New(simrt.Config{DaemonsOK: true, Tape: simrt.Replay(nil, nil), KeepLog: keepLog, MaxSteps: 3000000})
 	simunix.Attach(s, k)
 	data := model.Chunk(p.DataID, p.DataLen)
+	if p.ZeroBlock && p.DataLen >= 4096 {
+		// an aligned all-zero block inside the data (sparse-file shortcuts)
+		off := 0
+		if p.DataLen >= 8192 {
+			off = 4096
+		}
+		for i := off; i < off+4096; i++ {
+			data[i] = 0
+		}
+	}
 	var old []byte
 	if p.OldLen >= 0 {
 		old = model.Chunk(p.OldID, p.OldLen)
